@@ -21,7 +21,7 @@ Rank(k) == CASE k = "posonly" -> 1 [] k = "pos" -> 2 [] k = "vararg" -> 3 [] k =
 CallableKinds == {"function", "method", "static", "classmethod", "ctor"}
 \* "starmethod": an instance method written without a named receiver (its first parameter is the star-args parameter): Python passes
 \* the instance as args[0], the parameter list has no implicit receiver to remove
-CkCode(c) == CASE c = "function" -> 0 [] c = "method" -> 1 [] c = "static" -> 2 [] c = "classmethod" -> 3 [] c = "ctor" -> 4 [] c = "starmethod" -> 5
+CkCode(c) == CASE c = "function" -> 0 [] c = "method" -> 1 [] c = "static" -> 2 [] c = "classmethod" -> 3 [] c = "ctor" -> 4 [] c = "starmethod" -> 5 [] c = "starctor" -> 6
 HasReceiver(c) == c \in {"method", "classmethod", "ctor"}
 
 (* Literal defaults: Python source text, literal type, canonical value (Python value semantics, B.7). *)
@@ -77,7 +77,7 @@ Scenario(n, sd, ck, ann, selfish) ==
 Universe ==
   UNION { { Scenario(n, sd, ck, ann, FALSE) : sd \in Shapes(n), ck \in CallableKinds, ann \in BOOLEAN } : n \in 0..MaxP }
   \cup
-  UNION { { Scenario(n, sd, "starmethod", ann, FALSE) : sd \in { x \in Shapes(n) : x[1][1] = "vararg" }, ann \in BOOLEAN } : n \in 1..MaxP }
+  UNION { { Scenario(n, sd, ck, ann, FALSE) : sd \in { x \in Shapes(n) : x[1][1] = "vararg" }, ann \in BOOLEAN, ck \in {"starmethod", "starctor"} } : n \in 1..MaxP }   \* starctor: a constructor without a named receiver
   \cup
   UNION { { Scenario(n, sd, ck, TRUE, TRUE) :
               sd \in { x \in Shapes(n) : x[1][1] \in {"posonly", "pos"} }, ck \in {"function", "static"} } : n \in 1..MaxP }
